@@ -565,10 +565,18 @@ def execute(specs, paths, ops, model=None, chk=None, inp=None, verbose=False):
         res = call(db, op, specs, paths)
         if op[0] == "load" and res == "done":
             loaded.append(op[1])
+            # the names a file is asked for are the names stored in it: all of them registered, in file order, nothing else
+            pre = paths[op[1]] + os.path.sep
+            regs = [k[len(pre):] for k in db.register_keys if k.startswith(pre)]
+            if chk is not None:
+                chk.count("oracle:register")
+            if regs != list(specs[op[1]]["names"]):
+                fail("every series stored in a file is registered under its name when the file is loaded (all names, file order)",
+                     n + 1, list(specs[op[1]]["names"]), regs, clause="register", fmt=specs[op[1]]["fmt"])
             if op[2]:
                 # eager load: everything on the file is cached now; check it against the generator directly
                 for j in range(len(specs[op[1]]["names"])):
-                    ts = db.register[paths[op[1]] + os.path.sep + specs[op[1]]["names"][j]]
+                    ts = db.register.get(pre + specs[op[1]]["names"][j])
                     if ts is None:
                         fail("load(read=True) reads and stores every series of the file", n + 1, "cached", "None", clause="eager")
                     else:
